@@ -1,5 +1,8 @@
 //! Shared pieces of the verification harness.
 
+pub mod synth;
+pub mod vt;
+
 /// xorshift64* — the single PRNG every random choice is derived from.
 #[derive(Clone)]
 pub struct Rng(pub u64);
